@@ -421,7 +421,15 @@ class GitStream(Stream):
     rule = ("random trees inside a Git repository with generated .gitignore hierarchies (globs, directory rules, negations), files "
             "tracked / untracked / ignored, a manual submodule and subprojects/, in 40 % of the cases a user-level ignore file "
             "(core.excludesFile of the user's global Git configuration, outside the repository), four flag combinations: real Project.all_files vs the "
-            "model walk fed `git check-ignore` answers vs the oracle; non-trivial = some file ignored by Git and some covered")
+            "model walk fed `git check-ignore` answers vs the oracle; a second family of cases adds 0-3 further submodules (paths of one to "
+            "three components with dots, blanks, dashes, non-ASCII; the name equal to the path or given apart with dots / blanks / a `.path` "
+            "ending; as plain directory, with a .git file, as embedded repository, as gitlink in the index, or made by `git submodule add "
+            "[--name N]`; registered through `git config --file .gitmodules`) and reaches the root through symbolic links (an ancestor "
+            "directory is a link, the root itself is one, a link to a link, a relative link), spelt absolute or relative, the process in the "
+            "root, its parent or a sibling directory: Project.from_directory(<that spelling>).all_files, subset_files, `reuse --root <that "
+            "spelling> lint --json` and `lint-file` must each examine exactly the covered files (Git's verdicts are asked in the real "
+            "directory and do not depend on the spelling; files below a registered submodule path are covered iff --include-submodules); "
+            "non-trivial = some file ignored by Git and some covered")
     IGN = ["*.o", "build/", "/docs/gen.txt", "!keep.o", "tmp*", "src/*.log", "**/cache/", "*.tmp"]
     NAMES = ["a.c", "b.o", "keep.o", "gen.txt", "tmp1", "x.log", "y.tmp", "README", "LICENSE", "z.py"]
     DNAMES = ["src", "build", "docs", "cache", "subprojects", "mod", "lib"]
